@@ -34,7 +34,7 @@ def configs():
 class C07(Check):
     ID = 'C07'
     LEVEL = 'exploration'
-    BUDGET = {'quick': 30, 'thorough': 240}
+    BUDGET = {'quick': 75, 'thorough': 240}
     RULE = ('case = (configuration, timestamps, parent context). Box: EVERY gap sequence of length <= 5 (quick) / 6 (thorough) over the gap alphabet {0,1,2,3,4,5} '
             '(contains timeout-1, timeout, timeout+1 for active=4 and inactive=2) x start offset 0..2 x all 12 configurations (each timeout present/None, closing mapper '
             'present/None, include True/False); then random sequences up to 60 items with other timeouts, timestamps as int and as datetime/timedelta (a twelfth of the cases at day scale: timeouts of a day to a week, gaps of days to a year), under group_by '
@@ -61,7 +61,7 @@ class C07(Check):
                 idx += 1
                 if idx % nshards != shard:
                     continue
-                if tier == 'quick' and ln == m and idx % 12:
+                if tier == 'quick' and ((ln == m and idx % 48) or (ln == m - 1 and idx % 3)):
                     continue
                 t = idx % 3
                 items = [t]
